@@ -82,6 +82,8 @@ impl Property for C13 {
         let fees_on = c.cfg.vamms.iter().any(|v| v.toll > 0 || v.spread > 0);
         for (i, op) in c.ops.iter().enumerate() {
             let act = ic.resolve(op, &pre_c);
+            // the twin runner executes exactly one action per op: follow-ups queued by directed ops are dropped
+            ic.w.follow.clear();
             if let Act::Skip = act {
                 continue;
             }
